@@ -123,16 +123,18 @@ Qed.
 (* the example statement names an existing subarray, and names it correctly *)
 Definition position_word (k0 : Z) : string :=
   if Z.eqb k0 0 then "first" else if Z.eqb k0 1 then "second" else "third".
-Theorem example_ok : forall l n, (1 <= n)%Z ->
+Theorem example_ok : forall l n, In l ragged_languages -> (1 <= n)%Z ->
   let k0 := fst (example_of l n) - origin l in
   (0 <= k0 < n)%Z /\ k0 = Z.min 2 (n - 1) /\ snd (example_of l n) = position_word k0.
 Proof.
-  intros l n Hn. unfold example_of.
-  destruct (Z.ltb 2 n) eqn:E2; [apply Z.ltb_lt in E2|apply Z.ltb_ge in E2].
-  - cbn [fst snd]. replace (2 + origin l - origin l)%Z with 2%Z by lia. repeat split; try lia; reflexivity.
-  - destruct (Z.eqb n 2) eqn:E1; [apply Z.eqb_eq in E1|apply Z.eqb_neq in E1]; cbn [fst snd].
-    + replace (1 + origin l - origin l)%Z with 1%Z by lia. repeat split; try lia; reflexivity.
-    + replace (origin l - origin l)%Z with 0%Z by lia. repeat split; try lia; reflexivity.
+  intros l n Hl Hn. unfold example_of, ragged_example, origin.
+  unfold ragged_languages in Hl. cbn [In] in Hl.
+  repeat match type of Hl with _ \/ _ => destruct Hl as [<-|Hl] | False => contradiction end; eval_streq;
+    (destruct (Z.ltb 2 n) eqn:E2; [apply Z.ltb_lt in E2|apply Z.ltb_ge in E2]; cbn [fst snd];
+     [|destruct (Z.eqb n 2) eqn:E1; [apply Z.eqb_eq in E1|apply Z.eqb_neq in E1]; cbn [fst snd]]);
+    (split; [lia|]); (split; [lia|]); unfold position_word;
+    match goal with |- _ = (if Z.eqb ?x 0 then _ else _) =>
+      let v := eval vm_compute in x in change x with v end; reflexivity.
 Qed.
 
 (* code is withheld exactly when the values type or the index type has no token in the language's
